@@ -404,6 +404,138 @@ def _heap_tag_sites(body) -> list[dict]:
     return out
 
 
+_RELEASES = ("Py_DECREF", "Py_XDECREF", "Py_CLEAR", "CPy_DECREF", "CPy_XDECREF", "CPy_DecRef", "CPy_XDecRef", "Py_DecRef")
+_SLOT_STORES = ("PyList_SET_ITEM", "PyTuple_SET_ITEM")
+
+
+def _slot_events(body) -> list[dict]:
+    """In source order: releases whose operand reads a container slot in place (`Py_DECREF(list->ob_item[i])`)
+    and stores into a container slot (PyList_SET_ITEM / PyTuple_SET_ITEM), with the container's name."""
+    out: list[dict] = []
+
+    def has_slot_read(x) -> bool:
+        if x.get("kind") == "MemberExpr" and x.get("name") == "ob_item":
+            return True
+        return any(has_slot_read(y) for y in x.get("inner", []) or [] if isinstance(y, dict))
+
+    def root_name(x) -> str | None:
+        names: set = set()
+        _names_in(x, names)
+        return sorted(names)[0] if len(names) == 1 else None
+
+    def walk(n):
+        if n.get("kind") == "CallExpr" and n.get("inner"):
+            nm = _strip(n["inner"][0]).get("referencedDecl", {}).get("name")
+            args = n["inner"][1:]
+            line = n.get("range", {}).get("begin", {}).get("expansionLoc", n.get("range", {}).get("begin", {})).get("line")
+            if nm in _RELEASES and args and has_slot_read(args[0]):
+                out.append({"ev": "release_in_place", "line": line, "container": root_name(args[0]) if False else None})
+            elif nm in _SLOT_STORES and args:
+                out.append({"ev": "store", "line": line, "container": root_name(args[0]), "fn": nm})
+        for c in n.get("inner", []) or []:
+            if isinstance(c, dict):
+                walk(c)
+    walk(body)
+    return out
+
+
+def _zero_compares(body, pnames: list[str]) -> list[dict]:
+    """Order comparisons of an integer parameter with the literal 0 (sign tests)."""
+    out: list[dict] = []
+    flip = {"<": ">", ">": "<", "<=": ">=", ">=": "<="}
+
+    def walk(n):
+        if n.get("kind") == "BinaryOperator" and n.get("opcode") in flip and len(n.get("inner", [])) == 2:
+            l, r = (_strip(x) for x in n["inner"])
+            op = n["opcode"]
+            if l.get("kind") == "IntegerLiteral":
+                l, r, op = r, l, flip[op]
+            if r.get("kind") == "IntegerLiteral" and r.get("value") == "0" and l.get("kind") == "DeclRefExpr":
+                nm = l.get("referencedDecl", {}).get("name")
+                if nm in pnames:
+                    out.append({"param": nm, "op": op, "line": n.get("range", {}).get("begin", {}).get("line")})
+        for c in n.get("inner", []) or []:
+            if isinstance(c, dict):
+                walk(c)
+    walk(body)
+    return out
+
+
+_SIZED_ALLOCS = ("PyBytes_FromStringAndSize", "PyByteArray_FromStringAndSize")
+
+
+def _alloc_size_sites(body, pnames: list[str]) -> list[dict]:
+    """Calls of the sized bytes constructors with a description of where the size comes from:
+    per name mentioned in the size argument, how the name is initialised (`sub`: a difference, `size`:
+    an object's length, `param`, `other`) and whether the function compares it with 0 anywhere."""
+    decl_init: dict[str, dict] = {}
+    zero_cmp: set[str] = set()
+
+    def scan(n):
+        if n.get("kind") == "VarDecl" and n.get("name"):
+            inits = [c for c in n.get("inner", []) or [] if isinstance(c, dict)]
+            if inits:
+                decl_init[n["name"]] = inits[-1]
+        if n.get("kind") == "BinaryOperator" and n.get("opcode") in ("<", "<=", ">", ">=") and len(n.get("inner", [])) == 2:
+            l, r = (_strip(x) for x in n["inner"])
+            for a, b in ((l, r), (r, l)):
+                if b.get("kind") == "IntegerLiteral" and b.get("value") == "0" and a.get("kind") == "DeclRefExpr":
+                    zero_cmp.add(a.get("referencedDecl", {}).get("name"))
+        for c in n.get("inner", []) or []:
+            if isinstance(c, dict):
+                scan(c)
+    scan(body)
+
+    def has_len_source(x) -> bool:
+        if x.get("kind") == "MemberExpr" and x.get("name") in ("ob_size", "length", "len"):
+            return True
+        if x.get("kind") == "CallExpr" and x.get("inner"):
+            nm = _strip(x["inner"][0]).get("referencedDecl", {}).get("name") or ""
+            if nm.endswith(("_GET_SIZE", "_GET_LENGTH", "_Size", "Py_SIZE")):
+                return True
+        return any(has_len_source(y) for y in x.get("inner", []) or [] if isinstance(y, dict))
+
+    def origin(nm: str) -> str:
+        if nm in pnames:
+            return "param"
+        init = decl_init.get(nm)
+        if init is None:
+            return "other"
+        st = _strip(init)
+        if st.get("kind") == "BinaryOperator" and st.get("opcode") == "-":
+            return "sub"
+        if has_len_source(init):
+            return "size"
+        return "other"
+
+    out: list[dict] = []
+
+    def walk(n):
+        if n.get("kind") == "CallExpr" and n.get("inner"):
+            nm = _strip(n["inner"][0]).get("referencedDecl", {}).get("name")
+            if nm in _SIZED_ALLOCS and len(n["inner"]) >= 3:
+                size = n["inner"][2]
+                st = _strip(size)
+                names: set = set()
+                _names_in(size, names)
+                ent = {"fn": nm, "line": n.get("range", {}).get("begin", {}).get("line"), "literal": st.get("kind") == "IntegerLiteral", "has_sub": False,
+                       "names": {x: {"origin": origin(x), "zero_compared": x in zero_cmp} for x in sorted(names)}}
+
+                def sub(x):
+                    if x.get("kind") == "BinaryOperator" and x.get("opcode") == "-":
+                        ent["has_sub"] = True
+                    for y in x.get("inner", []) or []:
+                        if isinstance(y, dict):
+                            sub(y)
+                sub(size)
+                out.append(ent)
+        for c in n.get("inner", []) or []:
+            if isinstance(c, dict):
+                walk(c)
+    walk(body)
+    return out
+
+
 def _reduce(doc: dict) -> dict:
     res = {}
     for n in doc.get("inner", []):
@@ -432,6 +564,16 @@ def _reduce(doc: dict) -> dict:
             hts = _heap_tag_sites(body[0])
             if hts:
                 ent["heap_tag_sites"] = hts
+            ipn = [pn for pn, pt in zip(pnames, params) if pn and pt in ("int64_t", "Py_ssize_t", "int32_t", "int16_t", "long", "int", "long long")]
+            zc = _zero_compares(body[0], ipn) if ipn else []
+            if zc:
+                ent["zero_compares"] = zc
+            ass = _alloc_size_sites(body[0], [pn for pn in pnames if pn])
+            if ass:
+                ent["alloc_size_sites"] = ass
+            sev = _slot_events(body[0])
+            if any(e["ev"] == "store" for e in sev):
+                ent["slot_events"] = sev
             if "*" in ret:
                 ent["silent_error_returns"] = _silent_error_returns(body[0], _is_null)
             elif ret in ("char", "_Bool", "bool"):
